@@ -66,16 +66,16 @@ PROP_SYNC = {
     "C07": ["gen/SyncDec.v", "gen/SyncMisc.v"],
     "C08": ["gen/SyncDec.v", "gen/SyncMisc.v"],
     "C09": ["gen/GenConsts.v", "gen/SyncDec.v", "gen/SyncMisc.v"],
-    "C10": ["gen/SyncEnc.v", "gen/SyncMisc.v"],
+    "C10": ["gen/SyncEnc.v", "gen/SyncMisc.v", "gen/SyncString.v"],
     "C11": ["gen/SyncEnc.v", "gen/SyncMisc.v", "gen/SyncApi.v", "gen/SyncEffects.v"],
     "C12": ["gen/GenConsts.v", "gen/SyncEnc.v", "gen/SyncApi.v", "gen/SyncAcc.v"],
     "C13": ["gen/SyncEnc.v", "gen/SyncDec.v", "gen/SyncMisc.v", "gen/SyncEffects.v"],
     "C14": ["gen/SyncDec.v", "gen/SyncMisc.v", "gen/SyncEffects.v"],
     "C15": [],
     "C16": ["gen/GenConsts.v", "gen/SyncEnc.v", "gen/SyncDec.v", "gen/SyncMisc.v", "gen/SyncAcc.v"],
-    "C17": [],
-    "C18": ["gen/SyncEnc.v", "gen/SyncAcc.v", "gen/SyncDump.v"],
-    "C19": ["gen/SyncEnc.v", "gen/SyncDec.v", "gen/SyncAcc.v", "gen/SyncDump.v"],
+    "C17": ["gen/SyncString.v", "gen/SyncAcc.v"],
+    "C18": ["gen/SyncEnc.v", "gen/SyncAcc.v", "gen/SyncDump.v", "gen/SyncString.v"],
+    "C19": ["gen/SyncEnc.v", "gen/SyncDec.v", "gen/SyncAcc.v", "gen/SyncDump.v", "gen/SyncString.v"],
 }
 
 
